@@ -31,6 +31,7 @@ func (k SolverKind) String() string {
 type SolverStats struct {
 	Sat, Unsat, Unknown int
 	Time                time.Duration
+	ModelTime           time.Duration
 	Errors              int
 }
 
@@ -238,6 +239,8 @@ func (s *Solver) CheckWith(extra ...*Term) string {
 // GetModel returns values for the given variables; must follow a "sat" Check
 // in the same scope.
 func (s *Solver) GetModel(vars []*Term) (Model, error) {
+	t0 := time.Now()
+	defer func() { s.Stats.ModelTime += time.Since(t0) }()
 	m := Model{}
 	var decl []*Term
 	for _, v := range vars {
